@@ -1471,6 +1471,14 @@ pub fn c13_big_history(rng: &mut Rng, thorough: bool) -> Vec<Op> {
         }
         let (s, c) = (ids.s(), ids.c());
         ops.push(Op::Begin { s, chain: vec![], witness: false });
+        // from the second round on, every key of the batch is warmed up first (more than 512 finished
+        // warm-ups inside one worker's range: the cap of the queue of warmed-up results); a no-op
+        // under configurations without warm-up
+        if j >= 1 && j % 2 == 1 {
+            for (k, _) in batch.iter() {
+                ops.push(Op::SWarm { s, key: *k });
+            }
+        }
         ops.push(Op::Finish { s, c, batch });
         ops.push(Op::Commit { c, nb: false });
         ops.push(Op::CheckAll { proofs: 4 });
@@ -1630,6 +1638,7 @@ pub fn generate(prop: &str, rng: &mut Rng, thorough: bool) -> Vec<Scenario> {
                     c.pc = *rng.pick(&[1usize, 2]);
                     c.ht = 64000;
                     c.rollback = cc == 1;
+                    c.warm = cc == 1 || rng.chance(1, 2);
                     let mut ops = vec![Op::Open(c.clone())];
                     ops.extend(hb.iter().cloned());
                     v.push(Scenario { ops, label: format!("c13big {}", c.to_line()) });
